@@ -249,6 +249,14 @@ def stepLine (net : Net) (toks : List String) : Net × String :=
         match getNode net i with
         | some n => finish net (apiRemoveExit n cid)
         | none => bad
+      | "rmH", [i, cid, d] =>
+        match getNode net i with
+        | some n => finish net (apiRemoveRelayHalf n cid (d != 0))
+        | none => bad
+      | "ts", [o, h, dest, tag] =>
+        match getNode net o with
+        | some n => finish net (apiEndpointSend sym n h dest tag)
+        | none => bad
       | "rmR", [i, cid] =>
         match getNode net i with
         | some n => finish net (apiRemoveRelay n cid)
